@@ -148,6 +148,10 @@ class Ref:
             return [0]
         if name.startswith("stranger_"):
             return [0, (1 << w) - 1]
+        if self.n > 6 and name.startswith("s") and name[1:].split("_")[0].isdigit() and name.endswith("dat_r"):
+            # many subordinates: zero or one tag per subordinate (the product over all of them is enumerated)
+            k = int(name[1:].split("_")[0])
+            return [0, ((k + 1) * 0x1D) & ((1 << w) - 1) or 1]
         base = name.split("_")[-1] if name.startswith("s") and name[1].isdigit() else name
         if base in ("dat_w", "dat_r") or (base == "r" ):
             salt = int(name[1]) + 1 if name.startswith("s") and name[1].isdigit() else 0
@@ -271,6 +275,10 @@ def configs(tier):
             add(dict(aw=aw, dw=dw, gran=gran, feat=dfeat, subs=subs))
             subs2 = [dense(0, policies[(k + fi + 1) % len(policies)], dfeat, addr=((5 - k) << max(1, gb))) for k in range(6)]
             add(dict(aw=aw, dw=dw, gran=gran, feat=dfeat, subs=subs2))
+    # eleven to thirteen one-word windows (two-digit window numbers), in address order and reversed
+    for n, rev in ((11, False), (12, True)):
+        subs12 = [dense(0, "same", (), **({} if not rev else dict(addr=2 * (n - 1 - k)))) for k in range(n)]
+        add(dict(aw=5, dw=8, gran=8, feat=(), subs=subs12))
     # the same configurations with the decoder queried and elaborated between the add() calls
     extra = [dict(c, use_between=True) for c in out if len(c["subs"]) >= 2][::(6 if quick else 2)]
     extra += [dict(c, feat_enum=True) for c in out if c["feat"]][::(5 if quick else 2)]
